@@ -86,11 +86,16 @@ class Tree:
                 i = 0
                 newvar = None
                 while newvar is None or newvar in used:
+                    prev = newvar
                     newvar = fmt.format(
                         prefix=pre,
                         i=i,
                         j='' if i == 0 else i + 1,
                     )
+                    if newvar == prev:
+                        raise ValueError(
+                            f'cannot make unique variables with {fmt!r}'
+                        )
                     i += 1
                 used.add(newvar)
                 varmap[var] = newvar
